@@ -124,6 +124,8 @@ func genC38(c *hlib.Ctx) {
 	rr := c.R
 	n := c.N(1200, 30000)
 	pairs := [][2]int64{{300000, 3600000}, {300000, 3600000}, {300000, 3600000}, {50, 100}, {10, 120}, {1000, 5000}, {7, 21}, {50, 50}}
+	hangs := 0 // calls that did not return cost a full deadline each: stop provoking them after two
+	childCases, maxChild := 0, c.N(12, 150) // numChunks > len runs in a child process first: bounded
 	for i := 0; i < n; i++ {
 		p := pairs[rr.Intn(len(pairs))]
 		r1, r2 := p[0], p[1]
@@ -144,7 +146,10 @@ func genC38(c *hlib.Ctx) {
 			_, acs := decode(metas)
 			c.Count("l1chunks:" + bucket(len(acs)))
 			_, _, auto2 := autoNC2(metas, acs, r1, r2)
-			if rr.Chance(1, 3) {
+			if rr.Chance(1, 3) && (auto2 <= len(acs) || (hangs < 2 && childCases < maxChild)) {
+				if auto2 > len(acs) {
+					childCases++
+				}
 				c.Count("mode2:auto")
 				if auto2 > 1 {
 					c.Count("auto-nc2:>1")
@@ -152,12 +157,22 @@ func genC38(c *hlib.Ctx) {
 				if auto2 > len(acs) {
 					c.Count("auto-nc2:>len")
 				}
-				c.Do(fmt.Sprintf("ds.aggr auto %d %d %d %d %s", r1, nc1, r2, auto2, field), true)
+				if c.Do(fmt.Sprintf("ds.aggr auto %d %d %d %d %s", r1, nc1, r2, auto2, field), true) == "hang" {
+					hangs++
+				}
 				continue
 			}
 			c.Count("mode2:man")
 			nc2 := pickNCw(c, len(acs), "nc2", 40)
-			c.Do(fmt.Sprintf("ds.aggr man %d %d %d %d %s", r1, nc1, r2, nc2, field), true)
+			if nc2 > len(acs) && (hangs >= 2 || childCases >= maxChild) {
+				c.Count("gen:nc2>len-avoided")
+				nc2 = max(1, len(acs))
+			} else if nc2 > len(acs) {
+				childCases++
+			}
+			if c.Do(fmt.Sprintf("ds.aggr man %d %d %d %d %s", r1, nc1, r2, nc2, field), true) == "hang" {
+				hangs++
+			}
 			continue
 		}
 		c.Do(fmt.Sprintf("ds.aggr man %d %d %d %d %s", r1, nc1, r2, 1, field), false)
